@@ -29,25 +29,34 @@ func (cs *c01Set) tree(name string) *parse.Tree {
 }
 
 // expand returns what executing the list writes when every {{if}} is taken while depth > 0;
-// the action is replaced by val.
-func (cs *c01Set) expand(l *parse.ListNode, depth int, val string) string {
-	out := ""
+// every action is replaced by its own recorded sanitizer chain applied to val. ok is false if
+// a sanitizer refuses the value (nothing is written then).
+func (cs *c01Set) expand(l *parse.ListNode, depth int, val string) (out string, ok bool) {
+	ok = true
 	if l == nil {
-		return out
+		return
 	}
 	for _, n := range l.Nodes {
 		switch n := n.(type) {
 		case *parse.TextNode:
 			out += c01Rewritten(cs.e, n)
 		case *parse.ActionNode:
-			out += val
+			w, err := vApplyChain(cs.e.actionNodeEdits[n], val)
+			if err != nil {
+				return out, false
+			}
+			out += w
 		case *parse.IfNode:
 			if depth > 0 {
-				out += cs.expand(n.List, depth, val)
+				w, k := cs.expand(n.List, depth, val)
+				out += w
+				if !k {
+					return out, false
+				}
 			}
 		case *parse.TemplateNode:
 			callee := n.Name
-			if r, ok := cs.e.templateNodeEdits[n]; ok {
+			if r, found := cs.e.templateNodeEdits[n]; found {
 				callee = r
 			}
 			d := depth
@@ -55,11 +64,15 @@ func (cs *c01Set) expand(l *parse.ListNode, depth int, val string) string {
 				d-- // a recursive call
 			}
 			if t := cs.tree(callee); t != nil {
-				out += cs.expand(t.Root, d, val)
+				w, k := cs.expand(t.Root, d, val)
+				out += w
+				if !k {
+					return out, false
+				}
 			}
 		}
 	}
-	return out
+	return
 }
 
 var c01CallPrefixes = []string{"", "<p>", `<a title='`, `<a title="`, "<p ", `<a href="`, "<title>"}
@@ -83,6 +96,8 @@ func vHarness_C01_call() {
 	switch vParam("mid") {
 	case 1:
 		mid = " title="
+	case 2:
+		mid = "<i "
 	}
 	t0, t3, t4 := c01TextNode(p+s0), c01TextNode(s3), c01TextNode(s4)
 	t1, t2 := c01TextNode(s1), c01TextNode(s2+mid+s5)
@@ -97,7 +112,19 @@ func vHarness_C01_call() {
 	}
 	mainTree := &parse.Tree{Name: "main", Root: &parse.ListNode{NodeType: parse.NodeList, Nodes: mainNodes}}
 	var yNodes []parse.Node
-	if vParam("rec") == 1 {
+	var zTree *parse.Tree
+	if vParam("rec") == 2 {
+		// mutual recursion: y = T1 {{if .}}{{template "z" .}}{{end}} T2 M T5,  z = {{template "y" .}} T6
+		s6 := vNondetString("t6", vParam("n6"))
+		vASCII(s6)
+		inner := &parse.TemplateNode{NodeType: parse.NodeTemplate, Name: "z", Pipe: c01DotPipe()}
+		ifn := &parse.IfNode{BranchNode: parse.BranchNode{NodeType: parse.NodeIf, Pipe: c01DotPipe(),
+			List: &parse.ListNode{NodeType: parse.NodeList, Nodes: []parse.Node{inner}}}}
+		yNodes = []parse.Node{t1, ifn, t2}
+		back := &parse.TemplateNode{NodeType: parse.NodeTemplate, Name: "y", Pipe: c01DotPipe()}
+		zAction := &parse.ActionNode{NodeType: parse.NodeAction, Pipe: c01DotPipe()}
+		zTree = &parse.Tree{Name: "z", Root: &parse.ListNode{NodeType: parse.NodeList, Nodes: []parse.Node{back, zAction, c01TextNode(s6)}}}
+	} else if vParam("rec") == 1 {
 		inner := &parse.TemplateNode{NodeType: parse.NodeTemplate, Name: "y", Pipe: c01DotPipe()}
 		ifn := &parse.IfNode{BranchNode: parse.BranchNode{NodeType: parse.NodeIf, Pipe: c01DotPipe(),
 			List: &parse.ListNode{NodeType: parse.NodeList, Nodes: []parse.Node{inner}}}}
@@ -120,6 +147,15 @@ func vHarness_C01_call() {
 	tm := &Template{text: tt, Tree: mainTree, nameSpace: ns}
 	ns.set["main"] = tm
 	ns.set["y"] = &Template{text: ty, Tree: yTree, nameSpace: ns}
+	trees := map[string]*parse.Tree{"main": mainTree, "y": yTree}
+	if zTree != nil {
+		tz, err := tt.AddParseTree("z", zTree)
+		if err != nil {
+			return
+		}
+		ns.set["z"] = &Template{text: tz, Tree: zTree, nameSpace: ns}
+		trees["z"] = zTree
+	}
 	e := &ns.esc
 	c, _ := e.escapeTree(context{}, mainTree.Root, "main", 0)
 	if c.state != stateText {
@@ -127,21 +163,20 @@ func vHarness_C01_call() {
 		return
 	}
 	vReach("accepted")
-	cs := &c01Set{e: e, set: map[string]*parse.Tree{"main": mainTree, "y": yTree}, action: action}
-	chain := e.actionNodeEdits[action]
-	hostile, herr := vApplyChain(chain, d)
-	inert, ierr := vApplyChain(chain, "x")
-	if herr != nil || ierr != nil {
-		return
-	}
+	cs := &c01Set{e: e, set: trees, action: action}
 	maxDepth := 0
-	if vParam("rec") == 1 {
+	if vParam("rec") >= 1 {
 		maxDepth = 2
 	}
 	for depth := 0; depth <= maxDepth; depth++ {
 		var a, b tok
-		a.run(cs.expand(mainTree.Root, depth, inert))
-		b.run(cs.expand(mainTree.Root, depth, hostile))
+		inertOut, ok1 := cs.expand(mainTree.Root, depth, "x")
+		hostileOut, ok2 := cs.expand(mainTree.Root, depth, d)
+		if !ok1 || !ok2 {
+			continue // a run-time sanitizer error: Execute fails
+		}
+		a.run(inertOut)
+		b.run(hostileOut)
 		rawK := c01UnknownRaw(&a) || c01UnknownRaw(&b)
 		scrK := c01ScriptEsc(&a) || c01ScriptEsc(&b)
 		oddK := a.odd || b.odd
